@@ -32,6 +32,26 @@ type Fault struct {
 	Kind   string `json:"kind"`
 	K      int    `json:"k,omitempty"`
 	Cancel bool   `json:"cancel,omitempty"`
+	// Code is the gRPC status code the client sees (default Unavailable). A tier2 whose own context
+	// is cancelled or whose send fails answers Canceled; proxies answer Unavailable / Internal / Unknown.
+	Code string `json:"code,omitempty"`
+}
+
+func (f *Fault) status(msg string) error {
+	c := codes.Unavailable
+	switch f.Code {
+	case "canceled":
+		c = codes.Canceled
+	case "internal":
+		c = codes.Internal
+	case "unknown":
+		c = codes.Unknown
+	case "aborted":
+		c = codes.Aborted
+	case "resource_exhausted":
+		c = codes.ResourceExhausted
+	}
+	return status.Error(c, msg)
 }
 
 // RemoteTier2 is a real Tier2Service behind a real gRPC server on an in-memory listener,
@@ -143,7 +163,7 @@ func (f *faultStream) SendMsg(m any) error {
 		rt.mu.Unlock()
 		if f.fault != nil && f.fault.Kind == "refuse" {
 			f.cancel()
-			return status.Error(codes.Unavailable, "injected fault: worker unavailable")
+			return f.fault.status("injected fault: worker unavailable")
 		}
 	}
 	return f.ClientStream.SendMsg(m)
@@ -151,14 +171,14 @@ func (f *faultStream) SendMsg(m any) error {
 
 func (f *faultStream) RecvMsg(m any) error {
 	if f.failed {
-		return status.Error(codes.Unavailable, "injected fault: stream dropped")
+		return f.fault.status("injected fault: stream dropped")
 	}
 	if f.fault != nil && f.fault.Kind == "drop" && f.recvd >= f.fault.K {
 		f.failed = true
 		if f.fault.Cancel {
 			f.cancel()
 		}
-		return status.Error(codes.Unavailable, "injected fault: stream dropped")
+		return f.fault.status("injected fault: stream dropped")
 	}
 	err := f.ClientStream.RecvMsg(m)
 	if err == nil {
@@ -168,7 +188,7 @@ func (f *faultStream) RecvMsg(m any) error {
 	if err == io.EOF && f.fault != nil && (f.fault.Kind == "drop-after-complete" || f.fault.Kind == "drop") {
 		// the job ran to completion on the server but the client never learns it
 		f.failed = true
-		return status.Error(codes.Unavailable, "injected fault: completion lost")
+		return f.fault.status("injected fault: completion lost")
 	}
 	return err
 }
